@@ -22,7 +22,7 @@ RULE = ("Hypothesis-generated envelope histories (one-sided or two-sided disjoin
 ASSUMPTIONS = [
     "mock providers; a 'new process' is modelled by resetting both providers' in-memory event cursor to latest and building a new CloudSync over the same storage contents",
     "envelope hazards PATH_REUSE, DIRMOVE_ISOLATED, DIRMOVE_TOMB, XSIDE as for C03/C04",
-    "in the windows around a restart that loses the cursor (no_cursor / bad_cursor) users only create, overwrite or mkdir: the statement promises the walk fallback for created or modified objects only",
+    "in the windows around a restart that loses the cursor (no_cursor / bad_cursor) users only create, overwrite or mkdir: the statement promises the walk fallback for created or modified objects only; with a path-style side the same holds around a restart that lost its walk marker (open finding KF-32b: the walk overtakes a pending rename)",
     "storage is the harness DictStorage (SqliteStorage itself is decided by C09)",
 ]
 SAFE_KINDS = tuple((k, w) for k, w in OP_KINDS if k in ("create", "write", "mkdir"))
@@ -46,7 +46,8 @@ def gen(d, tier):
     acts = []
     emit_base(d, world, acts, d.choice(sides))
     ncycles = d.int(1, 3 if tier == "quick" else 4)
-    lossy_window = False        # a cursor-losing restart happened since the last quiet point
+    lossy_modes = _lossy_modes(cfg)
+    lossy_window = False        # a restart that walks (cursor lost; with a path-style side also: walk marker lost) since the last quiet point
     unsafe_ops = [False]        # a delete / rename / rmtree happened since the last quiet point
 
     def user_op(kinds):
@@ -55,7 +56,7 @@ def gen(d, tier):
             unsafe_ops[0] = True
     for c in range(ncycles):
         mode = d.weighted((("intact", 4), ("no_cursor", 2), ("bad_cursor", 2), ("no_walk_marker", 1)))
-        if mode in ("no_cursor", "bad_cursor"):
+        if mode in lossy_modes:
             if unsafe_ops[0]:
                 acts.append(["settle"])     # deletes / renames of this window must be synced before the cursor is lost
                 world.settle()
@@ -73,7 +74,7 @@ def gen(d, tier):
             acts.append(["settle"])
             world.settle()
             unsafe_ops[0] = False
-            lossy_window = mode in ("no_cursor", "bad_cursor")
+            lossy_window = mode in lossy_modes
         if d.chance(1, 3):
             # the stop request arrives while an event loop is in the middle of a batch (CloudSync.stop() from another
             # thread): that intake step hands k events to the engine, then sees the stop flag
@@ -102,6 +103,15 @@ def _winit(world):
     world.stale_strict = True
 
 
+def _lossy_modes(cfg):
+    """restart modes around which users only create / overwrite / mkdir: the cursor-losing ones (the statement promises
+    the walk fallback for created or modified objects only) and, when a side is path-style, also the walk that a lost
+    walk marker triggers -- a walk that overtakes a pending rename of a path-style side is open finding KF-32"""
+    if "path" in (cfg.get("L"), cfg.get("R")):
+        return ("no_cursor", "bad_cursor", "no_walk_marker")
+    return ("no_cursor", "bad_cursor")
+
+
 def in_domain(trace):
     acts = [a for a in trace["acts"] if a[0] not in ("down", "up", "stopstep")]
     if not envelope_ok(dict(trace, acts=acts), world_init=_winit):
@@ -111,7 +121,7 @@ def in_domain(trace):
     bounds = [-1] + [i for i, a in enumerate(acts) if a[0] == "settle"] + [len(acts)]
     for lo, hi in zip(bounds, bounds[1:]):
         win = acts[lo + 1:hi]
-        if any(a[0] == "up" and a[1] in ("no_cursor", "bad_cursor") for a in win):
+        if any(a[0] == "up" and a[1] in _lossy_modes(trace["cfg"]) for a in win):
             if any(a[0] == "u" and a[2] not in ("create", "write", "mkdir") for a in win):
                 return False
     depth = 0
